@@ -74,6 +74,7 @@ def c02_failures(tokens, mn, mx, strict):
 
 def c03_failures(tokens, mx, mcs, init_min, ims, drop):
     out = []
+    mcs = max(mcs, 0)
     bound = max(mcs, ims) if init_min > 1 else mcs
     prev = None
     for k, (data, s, e) in enumerate(tokens):
